@@ -22,11 +22,20 @@ TRACE_MODULE = "Trace_C17"
 # ------------------------------------------------------------------------------------------------ committed census
 # (regular expression on the batch name, reason).  Batch names: <cfg>_swz_<impl>_<source length>_<result length>_<set>,
 # <cfg>_swzw_<sl>_<rl>_<set>, <cfg>[x]_cvec_<n>_<parts>, <cfg>_cmat_<C>_<R>, <cfg>_cmatm_<C>_<R>, <cfg>_cqua
-HOLES = [("free", 4, "xyz"), ("free", 3, "xyzz"), ("free", 4, "xyzz")]
+def is_hole(impl, sl, setname, name):
+    """accessors recorded as missing inside a family that otherwise exists (they get a batch of their own, suffix _holes)"""
+    if impl == "free":
+        return setname == "xyzw" and (sl, name) in ((4, "xyz"), (3, "xyzz"), (4, "xyzz"))
+    if impl == "opw":       # 3-letter accessors naming the 4th component: _swizzle<3,T,Q,E0,E1,E2,3> counts the filler E3 = 3 as a duplicate
+        return sl == 4 and len(name) == 3 and setname[3] in name
+    return False
+
+
 ABSENT = [
     (r"\w+_swz_(fn|op)_1_[234]_\w+", "vec1 declares no swizzle accessors (the macro invocations are commented out in type_vec1.hpp)"),
     (r"fn_swz_free_\d_\d_(rgba|stpq)", "gtx/vec_swizzle.hpp defines xyzw names only"),
     (r"fn_swz_free_\d_\d_xyzw_holes", "gtx/vec_swizzle.hpp lacks xyz(vec4), xyzz(vec3), xyzz(vec4)"),
+    (r"(op|avx2)_swzw_4_3_\w+_holes", "3-letter accessors of a vec4 that name the 4th component are not assignable: the duplicate test of _swizzle compares the filler index E3 = 3 too"),
     (r"xyzw_swz_(fn|mem)_\d_\d_(rgba|stpq)", "GLM_FORCE_XYZW_ONLY removes the rgba / stpq names"),
     (r"(op|avx2)_swz_op_2_3_\w+", "3-letter operator accessors of a vec2 are declared _swizzle<3,T,Q,E0,E1,E2,-1>, which has no operator() (type_vec2.hpp GLM_SWIZZLE2_3_MEMBERS)"),
     (r"(op|avx2)_swz(_op|w)_\d_2_\w+_au32", "_swizzle_base1<2, uint, aligned> is not redirected to the scalar implementation as float and int are (type_vec_simd.inl)"),
@@ -56,7 +65,7 @@ def compile_cmd(cfg, cxx="g++"):
 class Cfg:
     def __init__(self, ctx, name, cfg, items, gdir, cxx="g++"):
         self.ctx, self.name, self.cfg, self.cxx, self.gdir = ctx, name, cfg, cxx, gdir
-        self.batches = gen.make_batches(cfg, items, not ctx.quick, HOLES)
+        self.batches = gen.make_batches(cfg, items, not ctx.quick, is_hole)
         self.names = [b.name for b in self.batches]
         self.bin = None
         self.absent_now = []
